@@ -261,15 +261,18 @@ def work(item):
     from orquestra.quantum.measurements import measurements as MM
     from orquestra.quantum.circuits import _unitary_tools as UTL
 
-    res.fn(
-        WF.Wavefunction.get_outcome_probs, WF.Wavefunction.get_probabilities, WF.sample_from_wavefunction, UT.bitstring_to_tuple,
-        UT.convert_bitstrings_to_tuples, UT.convert_tuples_to_bitstrings, WS.BaseWavefunctionSimulator.get_wavefunction,
-        WS.BaseWavefunctionSimulator._run_and_measure, WS.BaseWavefunctionSimulator.run_and_measure,
-        WS.BaseWavefunctionSimulator.get_exact_expectation_values, WS.BaseWavefunctionSimulator.get_measurement_outcome_distribution,
-        SymbolicSimulator._get_wavefunction_from_native_circuit, MD.create_bitstring_distribution_from_probability_distribution,
-        OU.get_expectation_value, SP.get_sparse_operator, SP.expectation, MM.get_expectation_value_from_frequencies,
-        MM.Measurements.get_counts, MM.Measurements.get_expectation_values, UTL._lift_matrix_numpy, UTL._lift_matrix_sympy,
-    )
+    try:  # evidence only: a renamed private helper must not break the check
+        res.fn(
+            WF.Wavefunction.get_outcome_probs, WF.Wavefunction.get_probabilities, WF.sample_from_wavefunction, UT.bitstring_to_tuple,
+            UT.convert_bitstrings_to_tuples, UT.convert_tuples_to_bitstrings, WS.BaseWavefunctionSimulator.get_wavefunction,
+            WS.BaseWavefunctionSimulator._run_and_measure, WS.BaseWavefunctionSimulator.run_and_measure,
+            WS.BaseWavefunctionSimulator.get_exact_expectation_values, WS.BaseWavefunctionSimulator.get_measurement_outcome_distribution,
+            SymbolicSimulator._get_wavefunction_from_native_circuit, MD.create_bitstring_distribution_from_probability_distribution,
+            OU.get_expectation_value, SP.get_sparse_operator, SP.expectation, MM.get_expectation_value_from_frequencies,
+            MM.Measurements.get_counts, MM.Measurements.get_expectation_values, UTL._lift_matrix_numpy, UTL._lift_matrix_sympy,
+        )
+    except AttributeError:
+        pass
     try:
         {
             "exact": _w_exact, "dist": _w_dist, "sample": _w_sample, "wfsample": _w_wfsample, "probdist": _w_probdist,
